@@ -119,8 +119,15 @@ Definition generational_step (g0 : G) (a : ea) (pop : list ind) (specs : list os
 Inductive iop :=
 | IStep (specs : list ospec) (chosen : list nat)
 | IReset                                (* reset_fitness (migration) *)
-| IBest                                 (* get_best_individual / hall-of-fame update after a step: reads every member *)
+| IBest                                 (* get_best_individual / hall-of-fame update: evaluates when due, then reads every member *)
+| IRegen (gs : list G)                  (* regenerate_population: fresh, unevaluated individuals whatever the island's age *)
+| IMigrate (keep : list nat) (incoming : list ind)   (* migration: the members at [keep] stay, the partner's arrive, then reset_fitness *)
 .
+
+Definition unflag (i : ind) : ind := mkInd (genome i) (stored i) false.
+(* Island.get_best_individual / _get_potential_hof_members (after fix F23): the population is evaluated first when the island is
+   new or some member is not marked evaluated *)
+Definition eval_due (pop : list ind) (age : nat) : bool := Nat.eqb age 0 || negb (forallb flag pop).
 
 Definition island_op (g0 : G) (a : ea) (st : list ind * nat) (o : iop) : outcome (list ind * nat) :=
   let '(pop, age) := st in
@@ -130,13 +137,18 @@ Definition island_op (g0 : G) (a : ea) (st : list ind * nat) (o : iop) : outcome
     | Ok next => Ok (next, S age)
     | MissingRead => MissingRead | StaleRead => StaleRead | BadOracle => BadOracle
     end
-  | IReset => Ok (map (fun i => mkInd (genome i) (stored i) false) pop, age)
+  | IReset => Ok (map unflag pop, age)
   | IBest =>
-    let pop' := match age with O => evaluate pop | _ => pop end in       (* evaluates first at age 0 *)
+    let pop' := if eval_due pop age then evaluate pop else pop in
     match read_all pop' with
     | Ok _ => Ok (pop', age)
     | MissingRead => MissingRead | StaleRead => StaleRead | BadOracle => BadOracle
     end
+  | IRegen gs => Ok (map (fun g => mkInd g None false) gs, age)
+  | IMigrate keep incoming =>
+    if forallb (fun k => Nat.ltb k (length pop)) keep
+    then Ok (map unflag (map (fun k => nth k pop (dflt g0)) keep ++ incoming), age)
+    else BadOracle
   end.
 
 Fixpoint island_run (g0 : G) (a : ea) (st : list ind * nat) (ops : list iop) : outcome (list ind * nat) :=
